@@ -25,7 +25,8 @@ def case_strategy():
     kd = st.tuples(st.sampled_from(['signing', 'signing', 'encryption', None]), st.sampled_from(POOL)).map(list)
     fed = st.lists(st.lists(kd, max_size=3), min_size=2, max_size=4)
     msg = st.fixed_dictionaries({'issuer': st.integers(0, 4), 'key': st.sampled_from(POOL), 'keyinfo': st.sampled_from(['none', 'signer-cert', 'other-cert', 'signer-rsa', 'other-rsa', 'signer-cert']),
-                                 'other': st.sampled_from(POOL), 'level': st.sampled_from(['response', 'assertion', 'both']), 'alg': st.sampled_from(['sha1', 'sha256'])})
+                                 'other': st.sampled_from(POOL), 'level': st.sampled_from(['response', 'assertion', 'both']), 'alg': st.sampled_from(['sha1', 'sha256']),
+                                 'r_issuer': st.sampled_from([None, None, None, 0, 1, 2, 3, 4])})
     return st.fixed_dictionaries({'fed': fed, 'only_md': st.booleans(), 'messages': st.lists(msg, min_size=3, max_size=8)})
 
 
@@ -49,17 +50,20 @@ def run(case):
         ki = {'none': None, 'signer-cert': ('x509', world.cert_body(m['key'])), 'other-cert': ('x509', world.cert_body(m['other'])),
               'signer-rsa': build.rsa_keyvalue(m['key']), 'other-rsa': build.rsa_keyvalue(m['other'])}[m['keyinfo']]
         r, a = build.standard(now, idp_entity=issuer)
+        # the Response may name another entity as its Issuer than the Assertion inside it: each signature is judged under the Issuer of the element that carries it
+        ri = m.get('r_issuer')
+        r_issuer = issuer if ri is None else (IDPS[ri] if ri < len(fed) else UNKNOWN)
+        r_trusted = trusted if ri is None else ([k for u, k in fed[ri] if u in ('signing', None)] if ri < len(fed) else [])
+        r['issuer'] = r_issuer
         try:
             doc = build.render(r, [a], sign_response=m['key'] if m['level'] in ('response', 'both') else None,
                                sign_assertions=m['key'] if m['level'] in ('assertion', 'both') else None, alg=m['alg'], keyinfo=ki)
         except RuntimeError:
             continue
         v = spside.deliver(sp, doc)
-        allowed = m['key'] in trusted
-        why = 'key %d is a metadata signing key of the claimed issuer' % m['key']
-        if not allowed and not case['only_md'] and not trusted and m['keyinfo'] == 'signer-cert':
-            allowed = True
-            why = 'setting off, no metadata signing key for the issuer, embedded certificate is the signer\'s'
+        def ok_under(tr):
+            return m['key'] in tr or (not case['only_md'] and not tr and m['keyinfo'] == 'signer-cert')
+        allowed = (ok_under(trusted) if m['level'] in ('assertion', 'both') else True) and (ok_under(r_trusted) if m['level'] in ('response', 'both') else True)
         cls = []
         if m['key'] not in trusted:
             cls.append('foreign-key')
@@ -69,15 +73,18 @@ def run(case):
             nt = True
         if issuer == UNKNOWN:
             cls.append('unknown-issuer')
+        if r_issuer != issuer:
+            cls.append('response-issuer-differs')
+            nt = True
         if v[0] == 'accept':
             if not allowed:
                 owner = [IDPS[i] for i, kds in enumerate(fed) if any(k == m['key'] for u, k in kds)]
                 raise Violation('untrusted-signature-accepted:' + ('rsa-keyvalue' if m['keyinfo'].endswith('rsa') else ('embedded-cert' if m['keyinfo'] != 'none' else 'metadata-key')),
-                                'accepted %s-signed message claiming issuer %s, signed with pool key %d (KeyInfo: %s, only_use_keys_in_metadata=%r); the issuer\'s metadata signing keys are %r; '
-                                'that key belongs to %r / uses %r' % (m['level'], issuer, m['key'], m['keyinfo'], case['only_md'], trusted, owner,
+                                'accepted %s-signed message whose Assertion claims issuer %s (Response Issuer: %s, its signing keys %r), signed with pool key %d (KeyInfo: %s, only_use_keys_in_metadata=%r); the assertion issuer\'s metadata signing keys are %r; '
+                                'that key belongs to %r / uses %r' % (m['level'], issuer, r_issuer, r_trusted, m['key'], m['keyinfo'], case['only_md'], trusted, owner,
                                                                      [(u, k) for kds in fed for u, k in kds if k == m['key']]),
                                 detail={'keyinfo': m['keyinfo']})
-            labels.add('accept|' + ('md-key' if m['key'] in trusted else 'embedded'))
+            labels.add('accept|' + ('md-key' if m['key'] in trusted else 'embedded') + ('|response-issuer-differs' if r_issuer != issuer else ''))
         else:
             labels.add('reject|' + '+'.join(cls or ['own-key-rejected']))
     return '+'.join(sorted(labels)), nt
